@@ -57,6 +57,26 @@ RitzClause(c, e) ==
     ELSE IF e.recv["u"].v # [r \in 1..n |-> UA(c, c.rows[r][1], c.rows[r][2])] \/ e.recv["g"].v # [r \in 1..n |-> G(c, c.rows[r][2])] THEN "residual-arguments"
     ELSE IF ~RatEq(e.loss, RitzTimesN(c), n) THEN "loss-value"
     ELSE "ok"
+HpmSClause(c, e) ==
+    LET n == Len(c.rows) IN
+    IF DOMAIN e.recv # {"x", "t", "kappa", "g"} THEN "residual-argument-names"
+    ELSE IF \/ e.recv["x"].v # [r \in 1..n |-> c.rows[r][1]] \/ e.recv["t"].v # [r \in 1..n |-> c.rows[r][2]]
+            \/ e.recv["g"].v # [r \in 1..n |-> G(c, c.rows[r][2])] \/ e.recv["kappa"].v # <<c.k>> THEN "residual-arguments"
+    ELSE IF ~RatEq(e.loss, HpmSTimesN(c), n) THEN "loss-value"
+    ELSE "ok"
+\* k-th evaluation of the condition: the residual's last call saw the rows of the batch it ended on; the loss is the documented aggregate
+HpmDClause(c, e, k) ==
+    LET B == HpmNB(c)
+        last == IF c.full THEN B ELSE ((k - 1) % B) + 1
+        rows == [i \in 1..Cardinality(HpmBatch(c, last)) |-> (last - 1) * c.bs + i]
+        q == IF c.root = 1 THEN e.loss ELSE e.loss2
+        v == HpmDValue(c, k)
+    IN IF DOMAIN e.recv # {"x", "t", "kappa"} THEN "residual-argument-names"
+       ELSE IF e.ncalls # (IF c.full THEN B ELSE 1) THEN "batches-per-evaluation"
+       ELSE IF \/ e.recv["x"].v # [i \in DOMAIN rows |-> c.rows[rows[i]][1]] \/ e.recv["t"].v # [i \in DOMAIN rows |-> c.rows[rows[i]][2]]
+               \/ e.recv["kappa"].v # <<c.k>> THEN "residual-arguments"
+       ELSE IF ~RatEq(q, v[1], v[2]) THEN "loss-value"
+       ELSE "ok"
 ParamClause(c, e) ==
     IF DOMAIN e.recv # {"kappa"} \/ e.recv["kappa"].v # <<c.k>> THEN "residual-arguments"
     ELSE IF ~RatEq(e.loss, (c.k - 3) * (c.k - 3), 1) THEN "loss-value" ELSE "ok"
@@ -84,6 +104,8 @@ Step == /\ l <= Len(Ev) /\ l' = l + 1 /\ tid' = tid
                      /\ verdict' = (IF e.exc # "" THEN Bad("evaluation-failed:" \o e.exc)
                                     ELSE LET cl == CASE c.kind = "dondata" -> DonClause(c, e) [] c.kind = "integro" -> IntClause(c, e)
                                                      [] c.kind = "ritz" -> RitzClause(c, e) [] c.kind = "param" -> ParamClause(c, e)
+                                                     [] c.kind = "hpms" -> HpmSClause(c, e)
+                                                     [] c.kind = "hpmd" -> HpmDClause(c, e, Cardinality({i \in 1..l : Ops[i].a = "ev" /\ Ops[i].c = op.c}))
                                          IN IF cl # "ok" THEN Bad(cl) ELSE verdict)
 Next == Step
 Fin == (l = Len(Ev) + 1) =>
